@@ -1447,10 +1447,13 @@ func Count(s, substr string) int {
 		o := runeCount
 		s = s[i:]
 		// Trim substr prefix from s.
-		for j, r := range s {
+		for j := range s {
 			o--
 			if o == 0 {
-				s = s[j+utf8.RuneLen(r):]
+				// NB: can't use utf8.RuneLen(r) here since it is 3 for
+				// utf8.RuneError, but an invalid byte is 1 byte wide.
+				_, size := utf8.DecodeRuneInString(s[j:])
+				s = s[j+size:]
 				break
 			}
 		}
